@@ -18,6 +18,22 @@ impl Transform for Slice {
             to = str.len();
         }
 
+        if to < from {
+            return "".to_string();
+        }
+
+        // from and to are byte offsets: move them back to the previous char boundary
+        // instead of panicking when they fall inside a multi-byte character
+        let mut from = from;
+
+        while !str.is_char_boundary(from) {
+            from -= 1;
+        }
+
+        while !str.is_char_boundary(to) {
+            to -= 1;
+        }
+
         str[from..to].to_string()
     }
 }
